@@ -61,7 +61,7 @@ def _parse(out, res):
 
 
 def run(module, consts=None, *, workers=None, simulate=None, depth=None, seed=None, timeout=900,
-        coverage=False, env=None, extra=(), expect_error=False, deadlock=False, defs="", **cfgkw):
+        coverage=False, env=None, extra=(), expect_error=False, deadlock=False, defs="", emit_filter=None, **cfgkw):
     """module: name of a module in spec/.  consts: dict constant name -> TLA+ expression text; they are
     written as definitions into a generated wrapper module MC (so sequences, records etc. are allowed).
     defs: extra TLA+ definitions for the wrapper.  cfgkw: see cfg().
@@ -93,13 +93,29 @@ def run(module, consts=None, *, workers=None, simulate=None, depth=None, seed=No
         if env:
             e.update(env)
         t0 = time.time()
+        # TLC's output goes to a file and is read line by line: in simulation mode TLC evaluates the Emit invariant on every
+        # successor of the last state, which multiplies the printed histories (gigabytes for long histories); emitted lines
+        # are filtered while reading (emit_filter), everything else is kept as text
+        outp = os.path.join(work, "tlc.out")
         try:
-            p = subprocess.run(cmd, cwd=work, capture_output=True, text=True, timeout=timeout, env=e)
+            with open(outp, "w") as fo:
+                p = subprocess.run(cmd, cwd=work, stdout=fo, stderr=subprocess.STDOUT, text=True, timeout=timeout, env=e)
         except subprocess.TimeoutExpired:
             raise TlcError("TLC timed out after %ss: %s" % (timeout, " ".join(cmd)))
         res = TlcResult()
         res.wall = time.time() - t0
-        res.out = p.stdout + p.stderr
+        text = []
+        with open(outp, errors="replace") as fi:
+            for line in fi:
+                if line.startswith('"[') or line.startswith('"{'):
+                    if emit_filter is None or emit_filter(line):
+                        try:
+                            res.emitted.append(json.loads(json.loads(line)))
+                        except Exception as ex:  # torn line: machinery error
+                            raise TlcError("unparseable emitted line: %r (%s)" % (line[:200], ex))
+                else:
+                    text.append(line)
+        res.out = "".join(text)
         res.cmd = " ".join(cmd)
         _parse(res.out, res)
         bad = ("Parsing or semantic analysis failed" in res.out or "Error: TLC threw" in res.out
